@@ -98,7 +98,7 @@ theorem Pushed.shape {P : Prog} {c : Cfg} {ins : Instr} {pushed : List Instr} (h
 /-- a callback invocation: the widget print (for `show`), the script's actions, then the return -/
 theorem step_callScr (P : Prog) (c : Cfg) (scr : Nat) (cb : Cb) (a : Option Nat) (k : Option Str) (rest : List Instr)
     (hc : c.code = .callScr scr cb a k :: rest) :
-    (outCfg (step P c)).code =
+    (sOutCfg (step P c)).code =
       (if cb = .show then [.printWidget scr] else []) ++
         (P.screenScript scr cb (countOf (c.A.scr scr).counts cb)).acts.map .act ++
         [.scrRet scr cb (P.screenScript scr cb (countOf (c.A.scr scr).counts cb)).ret k] ++ rest := by
@@ -114,7 +114,7 @@ theorem Shape_init {c0 : Cfg} (h : Started c0) : Shape c0.code := by
     rfl
   · rfl
 
-theorem Shape_step {P : Prog} {c : Cfg} (h : Shape c.code) : Shape (outCfg (step P c)).code := by
+theorem Shape_step {P : Prog} {c : Cfg} (h : Shape c.code) : Shape (sOutCfg (step P c)).code := by
   rcases hc : c.code with _ | ⟨ins, rest⟩
   · rw [step_nil P c hc, hc]; trivial
   · rw [hc] at h
